@@ -262,7 +262,8 @@ func (d *Decorated) sortedToks() []string {
 func (d *Decorated) goEpilogue(pkg string, object bool) string {
 	var b strings.Builder
 	b.WriteString("\n// ---- harness-owned epilogue ---- (this comment contains the section mark %% on purpose)\n")
-	b.WriteString("func tokCode(ch byte, p int) int {\n\tswitch ch {\n\tcase 1:\n\t\tpanic(\"harness: the lexer gives up\") // user code that fails in the middle of a parse\n")
+	// identifiers of the epilogue carry the prefix hx: a token of the grammar may be called c, p, m, ch, pos ...
+	b.WriteString("func tokCode(hxCh byte, hxPos int) int {\n\tswitch hxCh {\n\tcase 1:\n\t\tpanic(\"harness: the lexer gives up\") // user code that fails in the middle of a parse\n")
 	var codes []string
 	for _, t := range d.sortedToks() {
 		code := t
@@ -272,21 +273,21 @@ func (d *Decorated) goEpilogue(pkg string, object bool) string {
 	// not a token: the example lexers of the repository answer 0; which undeclared code the
 	// harness lexer answers depends on the position (0, the two integers after the largest
 	// token code, a negative one other than -1)
-	b.WriteString("\t}\n\tm := 0\n\tfor _, c := range []int{" + strings.Join(codes, ", ") + "} {\n\t\tif c > m {\n\t\t\tm = c\n\t\t}\n\t}\n")
-	b.WriteString("\tswitch p % 4 {\n\tcase 1:\n\t\treturn m + 1\n\tcase 2:\n\t\treturn -7\n\tcase 3:\n\t\treturn m + 2\n\t}\n\treturn 0\n}\n")
+	b.WriteString("\t}\n\thxMax := 0\n\tfor _, hxC := range []int{" + strings.Join(codes, ", ") + "} {\n\t\tif hxC > hxMax {\n\t\t\thxMax = hxC\n\t\t}\n\t}\n")
+	b.WriteString("\tswitch hxPos % 4 {\n\tcase 1:\n\t\treturn hxMax + 1\n\tcase 2:\n\t\treturn -7\n\tcase 3:\n\t\treturn hxMax + 2\n\t}\n\treturn 0\n}\n")
 	b.WriteString(`
-func GetToken(input string, valTy *ValType, pos *int) int {
+func GetToken(hxInput string, hxVal *ValType, hxPosPtr *int) int {
 	rt.Fetch()
-	*valTy = ValType{}
-	if *pos >= len(input) {
+	*hxVal = ValType{}
+	if *hxPosPtr >= len(hxInput) {
 		return -1
 	}
-	ch := input[*pos]
-	p := *pos
-	*pos++
-	valTy.n = rt.TokN(ch, p)
-	valTy.s = rt.TokS(ch, p)
-	return tokCode(ch, p)
+	hxCh := hxInput[*hxPosPtr]
+	hxPos := *hxPosPtr
+	*hxPosPtr++
+	hxVal.n = rt.TokN(hxCh, hxPos)
+	hxVal.s = rt.TokS(hxCh, hxPos)
+	return tokCode(hxCh, hxPos)
 }
 func hs(r int, xs ...string) string { return rt.HS(r, xs...) }
 func hn(r int, xs ...int) int       { return rt.HN(r, xs...) }
@@ -328,7 +329,7 @@ func nest() {
 	func() {
 		defer func() { recover() }()
 		ParserInit()
-		Parser(outer.Input)
+		Parser(outer.Input[len(outer.Input)/2:] + outer.Input[:len(outer.Input)/2]) // the two halves swapped: another token sequence
 	}()
 	PopContex()
 	IsTrace = trace
@@ -372,7 +373,7 @@ func nest() {
 	}
 	func() {
 		defer func() { recover() }()
-		MakeParserContext().Parser(outer.Input)
+		MakeParserContext().Parser(outer.Input[len(outer.Input)/2:] + outer.Input[:len(outer.Input)/2])
 	}()
 	if trace {
 		IsTrace = true
@@ -419,7 +420,7 @@ const tsPrologue = `"use strict";
 func (d *Decorated) tsEpilogue() string {
 	var b strings.Builder
 	b.WriteString("\n// ---- harness-owned epilogue ---- (this comment contains the section mark %% on purpose)\n")
-	b.WriteString("function tokCode(ch :number, p :number) :number {\n\tswitch (ch) {\n\tcase 1: throw new Error(\"harness: the lexer gives up\");\n")
+	b.WriteString("function tokCode(hxCh :number, hxPos :number) :number {\n\tswitch (hxCh) {\n\tcase 1: throw new Error(\"harness: the lexer gives up\");\n")
 	var codes []string
 	for _, t := range d.sortedToks() {
 		code := t
@@ -429,21 +430,21 @@ func (d *Decorated) tsEpilogue() string {
 		codes = append(codes, code)
 		fmt.Fprintf(&b, "\tcase %d: return %s;\n", d.Chars[t], code)
 	}
-	b.WriteString("\t}\n\tlet m = 0;\n\tfor (const c of [" + strings.Join(codes, ", ") + "]) {\n\t\tif (c > m) { m = c; }\n\t}\n")
-	b.WriteString("\tswitch (p % 4) {\n\tcase 1: return m + 1;\n\tcase 2: return -7;\n\tcase 3: return m + 2;\n\t}\n\treturn 0; // not a token\n}\n")
+	b.WriteString("\t}\n\tlet hxMax = 0;\n\tfor (const hxC of [" + strings.Join(codes, ", ") + "]) {\n\t\tif (hxC > hxMax) { hxMax = hxC; }\n\t}\n")
+	b.WriteString("\tswitch (hxPos % 4) {\n\tcase 1: return hxMax + 1;\n\tcase 2: return -7;\n\tcase 3: return hxMax + 2;\n\t}\n\treturn 0; // not a token\n}\n")
 	b.WriteString(`
-function GetToken(input :string, model:{ValType :ValType, pos :number}) :number {
+function GetToken(hxInput :string, model:{ValType :ValType, pos :number}) :number {
 	RT.fetch();
 	model.ValType = new ValType();
-	if (model.pos >= input.length) {
+	if (model.pos >= hxInput.length) {
 		return -1;
 	}
-	let ch = input.charCodeAt(model.pos);
-	let p = model.pos;
+	let hxCh = hxInput.charCodeAt(model.pos);
+	let hxPos = model.pos;
 	model.pos++;
-	model.ValType.n = RT.tokN(ch, p);
-	model.ValType.s = RT.tokS(ch, p);
-	return tokCode(ch, p);
+	model.ValType.n = RT.tokN(hxCh, hxPos);
+	model.ValType.s = RT.tokS(hxCh, hxPos);
+	return tokCode(hxCh, hxPos);
 }
 function hs(r :number, ...xs :string[]) :string { return RT.hs(r, xs); }
 function hn(r :number, ...xs :number[]) :number { return RT.hn(r, xs); }
